@@ -18,6 +18,7 @@ var tiers = map[string][3]int{
 	"C11": {800, 8000, 0},
 	"C07": {3000, 40000, 0},
 	"C14": {1500, 30000, 0},
+	"C04": {600, 8000, 0},
 }
 
 func tierOf(id string, thorough bool) tierCfg {
@@ -60,5 +61,9 @@ func init() {
 	props["C14"] = propCfg{
 		Rule:        "1-2 files with uniquely named declarations that all share the prefix `ab` (locals, parameters, loop variables, local functions, globals abG1/abG2/abgfun); one statement `local zq = ab` is planted at a random statement boundary of a random block such that the file stays valid (checked with the reference parser); textDocument/completion at the end of `ab`. Oracle: with V = prefix-matching locals visible at the cursor per the reference binder, W = prefix-matching globals defined in the workspace, I = locals declared after the cursor or in a block that does not enclose it: labels must contain V and W and must not contain any member of I. Non-trivial: V and I both non-empty; distinct by workspace text + cursor.",
 		Assumptions: append([]string{refluaAssume, "don't-care: extra fuzzy matches, keywords, snippets, library names, the planted zq itself, locals whose own initialiser contains the cursor"}, commonAssume...),
+	}
+	props["C04"] = propCfg{
+		Rule:        "1-2 files of valid programs (20% with one token mutation) rendered with the wild layout: any two tokens may be separated by spaces, tabs, \\v, \\f, LF/CRLF/CR, short comments, long comments of level 0-2 (single- and multi-line, with ASCII / Cyrillic / CJK / astral text), and literals include strings with every escape form, long-bracket strings and non-ASCII strings — so identifiers regularly follow such tokens on the same line. All checks are enabled. Every published diagnostic range, and every range returned by definition / references / documentHighlight / rename at each variable occurrence, documentSymbol of each file and workspace/symbol (each global name and the empty query) is checked against the client's own text: inside the document, start <= end, on UTF-16 boundaries; for results that designate a named entity (locations, highlights, rename edits, diagnostics of types 2/3/4/17) the text under the range must be exactly the identifier. Non-trivial: a workspace with an occurrence preceded on its line by a string, comment, tab or non-ASCII character; distinct by workspace text.",
+		Assumptions: append([]string{refluaAssume, "LF+CR is never generated (one line break for Lua, two lines for LSP)", "containment only is checked for ranges that designate statements or expressions"}, commonAssume...),
 	}
 }
